@@ -163,6 +163,24 @@ def frozen(t: str, v: str) -> bool:
         other = Sid(fields=dict(sid._fields)) if sid else Sid(PRE + t + SUF)
         other.get_with(**{k_last: None})
         other.fields.clear()
+    elif op == 9:
+        # a Sid built from a caller's dictionary (keys already in template order) must not keep that dictionary
+        d = dict(sid._fields)
+        if d:
+            twin = Sid(fields=d)
+            tb = _snap(twin)
+            d[k_last] = v + "x"
+            d["new"] = v
+            d.pop(k_first, None)
+            if _snap(twin) != tb:
+                return fail("sid-shares-the-callers-dictionary")
+            one = {k_first: sid._fields[k_first]}
+            single = Sid(fields=one)
+            sb = _snap(single)
+            one[k_first] = v
+            one.clear()
+            if _snap(single) != sb:
+                return fail("sid-shares-the-callers-dictionary")
     after = _snap(sid)
     if after != before:
         return fail("sid-changed-by-operation")
